@@ -203,6 +203,8 @@ def run_exhaustive(item):
 @st.composite
 def cases(draw, tier='quick'):
     dom = draw(gen.domains(2, 10, 1, 5, cap=10**9))
+    if draw(st.integers(0, 3)) == 0:
+        dom['shape'] = [draw(st.sampled_from([1, 2, 7, 40, 100])) for _ in dom['shape']]     # construction only looks at sizes
     attrs = dom['attrs']
     cliques = draw(gen.clique_sets(attrs, max_cliques=10, max_clique_size=4))
     m = draw(st.sampled_from(['none', 'perm', 'perm_tuple', 'int']))
